@@ -14,7 +14,7 @@ REPLAY_BOUNDS = {
     'dnnf': 'top-down compilation + conditioning with BOTH node stores (StandardDecisionNNFBuilder, SemanticDecisionNNFBuilder<U64_LARGEST>): 11 CNFs over 3 variables (incl. unsatisfiable by propagation / by search, an empty clause, tautological and repeated literals) x 6 orders x {diagram, negation} x 3 labels x 2 values, plus ~300 seeded random CNFs over 4 variables and ~200 over 5-6 variables with 3-9 clauses, ~350 formulas of 2-5 four-literal clauses over 6 variables under random orders, formulas that are unsatisfiable only by search with unit clauses present, 40 batches of 60 formulas over 3-5 variables compiled one after the other in ONE builder per node store (standard, semantic U64_LARGEST), each conditioned -- diagram and negation -- on every literal, and two random 3-CNFs with 40 variables / 70 clauses (~10^5 component-cache states; checked by SAMPLING: 20000 random assignments and guided walks); checks: models = CNF models, false constant <=> unsatisfiable, no path decides a variable twice, condition = restriction; one random 3-CNF over 72 variables with 16 clauses and one over 12 variables with 70 clauses (more than 64 variables / clauses), checked by sampling',
     'cnf': 'Cnf::eval / is_sat_partial on 7 clause lists (incl. empty list, empty clause, duplicate and complementary literals) x all total and one-hole partial assignments of 3 variables, and every partial model over FOUR variables (81; a universe larger than the formula mentions) on 11 lists; 300 seeded random PartialModel set/unset sequences; Cnf::condition on the 7 lists x 6 literals and 300 seeded random CNFs over 4 variables (all assignments); Cnf::wmc in FiniteField<1000000007> on the 7 lists x 2 weight vectors and 300 random CNFs/weights against the explicit sum; VarSet union / union_with / minus / intersect_varset / difference / iter / len / is_empty against BTreeSet on 300 random pairs of sets over 0..9; PartialModel from_assignments / from_litvec / from_total_model / assignment_iter / difference on 300 random pairs of partial assignments of 5 variables; size-threshold family: 12 formulas with clauses of 9-14 literals over 10-12 variables (condition on every literal, wmc), sets with labels up to 139, partial models over 70 variables',
     'order': 'VarOrder::new on every permutation of 0..4 variables, each extended 0-2 times with new_last; linear_order / force_order / min_fill_order on 202 CNFs over 1-6 variables and 10 over 66-70 variables: bijection between labels and levels',
-    'compile': 'compile_cnf / collapse_clauses on 8 fixed clause lists x 6 orders and 600 seeded random CNFs; compile_logical_expr / compile_plan on 600 seeded random expressions of depth <= 4 over 3 variables; compile_cnf_with_assignments against compile-then-condition_model (same pointer) on 8 lists x 6 orders x 5 partial assignments and 600 random; BottomUpPlan::from_dtree(DTree::from_cnf) + compile_plan on 600 random CNFs; CompressionSddBuilder compile_cnf / compile_logical_expr / compile_plan under all 12 vtrees over 3 variables (8 fixed lists + 400 random CNFs and expressions) and 4 vtrees over 4 variables (100 random CNFs) and 5 vtrees over 5 variables (200 random CNFs and expressions), evaluated by a structural walk of the SDD; 40 formulas over 66-70 variables (labels beyond 64) for compile_cnf / plan from dtree / compile_cnf_with_assignments / SDD, evaluated on all assignments of the <= 10 mentioned variables; systematic SDD expressions o1(o2(l,l),l) and ite(l,o(l,l),l) over all literals of 3 variables in shared builders; SemanticSddBuilder<U64_LARGEST> compile_cnf on the same CNFs (its ite is an explicit todo!(), so no expressions / plans)',
+    'compile': 'compile_cnf / collapse_clauses on 8 fixed clause lists x 6 orders and 600 seeded random CNFs; compile_logical_expr / compile_plan on 600 seeded random expressions of depth <= 4 over 3 variables; compile_cnf_with_assignments against compile-then-condition_model (same pointer) on 8 lists x 6 orders x 5 partial assignments and 600 random; BottomUpPlan::from_dtree(DTree::from_cnf) + compile_plan on 600 random CNFs without and 600 with their empty clauses, and on 36 formulas of 1-3 empty clauses next to 0-3 independent clauses; CompressionSddBuilder compile_cnf / compile_logical_expr / compile_plan under all 12 vtrees over 3 variables (8 fixed lists + 400 random CNFs and expressions) and 4 vtrees over 4 variables (100 random CNFs) and 5 vtrees over 5 variables (200 random CNFs and expressions), evaluated by a structural walk of the SDD; 40 formulas over 66-70 variables (labels beyond 64) for compile_cnf / plan from dtree / compile_cnf_with_assignments / SDD, evaluated on all assignments of the <= 10 mentioned variables; systematic SDD expressions o1(o2(l,l),l) and ite(l,o(l,l),l) over all literals of 3 variables in shared builders; SemanticSddBuilder<U64_LARGEST> compile_cnf on the same CNFs (its ite is an explicit todo!(), so no expressions / plans)',
     'dtree': 'DTree::from_cnf + VTree::from_dtree on 10 fixed CNFs with independent components / unused labels and 700 seeded random CNFs over 2-6 variables (half connected through one clause over all variables, half arbitrary) with random elimination orders over 0..largest label and, for a third of them, over a proper prefix of the labels; 30 formulas with labels up to 130, four with one or two clauses over 66-72 variables (cutsets of more than 64 variables): leaves = clauses, vars = union of children, cutset formula, vtree leaves = CNF variables',
     'sdd': 'CompressionSddBuilder: a systematic family (56 ordered pairs of non-literal operands x 6 vtrees: iff, xor and twelve ite combinations of the operands, their negations and the constants in one builder, so that ite-cache entries written first are read later) and 1200 seeded random straight-line programs of 9-18 operations (var, negate, and, or, iff, xor, ite, condition, exists, and verbatim repetitions of earlier operations so that the apply and ite caches hit) over 8 vtrees with 3-4 variables; every result evaluated by a structural walk against the truth table of the definition; earlier results re-checked after every operation',
     'hasher': 'CnfHasher new / push / decide / pop / hash: EXHAUSTIVE walk over all partial assignments (push, decide, recurse, pop) of 501 formulas with 3-5 variables and 2-5 clauses of 2-3 literals (half with a pivot variable and otherwise positive literals, so literals repeat across clauses), every pair of visited states compared; half of them again through Cnf::new(..).hasher() with repeated literals, a clause that is one literal repeated and a reversed clause; plus 2 fixed and 600 seeded random histories of 4-15 operations on CNFs with 2-4 variables and 1-5 clauses of <= 3 literals (prime product < 2^128), partial model kept in step with the decisions; every pair of visited states that falsify no clause: equal hash <=> the unsatisfied non-unit clauses restricted to unassigned literals coincide clause by clause; size thresholds: 20 histories over formulas whose variables carry labels up to 129 and 20 over formulas of 66-80 clauses (there only same residual => same hash is demanded: the prime product may wrap)',
